@@ -9,6 +9,12 @@
   * `C15_sep_as_comma`: the hint gives the occurrences that a comma token inserted in front of the token
     gives (positions from the token on shifted by one), for every token that is not skipped and not hinted
     "not a number part" (`C15_sep_as_comma_incomplete`: the Dutch instance with a word answered `Incomplete`).
+    The left-out case — the token is hinted "not a number part" as well — is `C15_sep_as_comma_nan` (end of
+    the file): such a token never consults the separation hint, and a comma token in front of it is invisible;
+    this needs one more fact about the language (`HintsNan.Inert cfg.lang [',']`: the refused forced stop
+    leaves what `finish` / `isOrdinal` observe unchanged), true of the seven interpreters
+    (`C15_stop_inert_builtin`). `C15_sep_as_comma_any`, `C15_sep_as_comma_any_builtin`: the statement of
+    `C15_sep_as_comma` without the restriction on the "not a number part" hint.
   * `C15_lookahead_bound`: when `next` returns the k-th occurrence, at most `occs[k+2].start + 1` tokens
     have been read (all of them if there is no `occs[k+2]`); `C15_on_demand`, `C15_on_demand_minimal`:
     a queued occurrence is returned without reading anything, and the reading stops at the first token
@@ -20,6 +26,7 @@
   state with an error other than `Incomplete`).
 -/
 import T2N.Lemmas.Hints
+import T2N.Lemmas.HintsNan
 import T2N.Props.C06
 import T2N.Props.C07
 import T2N.Props.C10
@@ -321,5 +328,138 @@ example :
     Hints.view (nextN (exCfg En.lang 10) 0 (iterNew toks)) = some (0, 1, 5) ∧
     Hints.view (nextN (exCfg En.lang 10) 1 (iterNew toks)) = some (2, 3, 5) ∧
     Hints.view (nextN (exCfg En.lang 10) 2 (iterNew toks)) = some (4, 5, 7) := by decide +kernel
+
+/-! ### the hint is a spoken comma — the token is hinted "not a number part" as well
+
+  `C15_sep_as_comma` leaves out the tokens hinted BOTH "separated from the predecessor" and "not a number
+  part". Such a token goes through the `not_a_number_part` branch of `push`, which does not consult the
+  separation hint: it ends the open number with the parser as it is. After a spoken comma the number has been
+  ended by the comma token, with the parser that has refused the forced stop `","`. Both give the same
+  occurrence when the refused forced stop leaves no trace that `finish` (digit text, value) or `isOrdinal`
+  observe: `HintsNan.Inert cfg.lang [',']`. A refused word changes nothing but the blocking flags in every
+  one of the seven interpreters (T2N/Lemmas/LangFacts.lean), so this holds for all of them. -/
+
+/-- the seven interpreters refuse the forced stop `","` (every word they refuse, in fact) without an effect
+on the digit text, the value or the ordinal flag of the number held -/
+theorem C15_stop_inert_builtin (l : Lang) (hl : l ∈ allLangs) : HintsNan.Inert l [','] :=
+  HintsNan.inert_builtin l hl [',']
+
+/-- **C15 (a comma in front of a token hinted "not a number part" is invisible)**: for a token `t` hinted
+"not a number part", after the tokens `A` and before the tokens `B`, the stream `A, t, B` and the stream
+`A, ",", t, B` yield the same occurrences, the positions from `t` on being shifted by one — whatever `t`
+declares about its predecessor (no hypothesis on `cfg.sep`: the hint is not consulted), whatever its text
+(such a token is never skipped).
+
+Assumptions on the language: those of `C15_sep_as_comma`, and `HintsNan.Inert cfg.lang [',']`
+(all seven interpreters: `C15_builtin`, `C15_stop_inert_builtin`). -/
+theorem C15_sep_as_comma_nan (cfg : ScanCfg) (hl : LangOk cfg.lang) (hf : cfg.lang.ErrFresh)
+    (hc : cfg.lang.Rejects [',']) (hk : HintsNan.Inert cfg.lang [',']) (hcc : CommaChar cfg.cc)
+    (A B : List Tok) (t : Tok) (hnan : t.nan = true) :
+    ∃ occs, findNumbers cfg (A ++ t :: B) = .ok occs ∧
+      findNumbers cfg (A ++ commaTok :: t :: B) = .ok (occs.map (shiftFrom A.length)) := by
+  obtain ⟨occs, h1, h2⟩ := HintsNan.findNumbers_comma_nan cfg hl hf hc hk hcc A B t hnan
+  refine ⟨occs, h1, ?_⟩
+  rw [h2]
+  congr 1
+  apply List.map_congr_left
+  intro o ho
+  have hcut := HintsNan.nan_cut cfg hl A B t hnan occs h1 o ho
+  have hstrict := C06.C06_strict cfg hl (A ++ t :: B) occs h1 o ho
+  exact HintsNan.shiftOcc_eq_shiftFrom A.length o hstrict (fun hh => hcut ⟨by omega, hh.2⟩)
+
+/-- **C15 (the hint is a spoken comma, every token)**: the statement of `C15_sep_as_comma` without the
+hypothesis that `t` is not hinted "not a number part" — at the price of the assumption
+`HintsNan.Inert cfg.lang [',']` on the language. -/
+theorem C15_sep_as_comma_any (cfg : ScanCfg) (hl : LangOk cfg.lang) (hf : cfg.lang.ErrFresh)
+    (hc : cfg.lang.Rejects [',']) (hk : HintsNan.Inert cfg.lang [',']) (hcc : CommaChar cfg.cc)
+    (A B : List Tok) (t p : Tok) (hp : prevSig cfg A = some p) (hsep : cfg.sep t p = true)
+    (hs : Scanner.isSkipped cfg t = false) :
+    ∃ occs, findNumbers cfg (A ++ t :: B) = .ok occs ∧
+      findNumbers cfg (A ++ commaTok :: t :: B) = .ok (occs.map (shiftFrom A.length)) := by
+  by_cases hnan : t.nan = true
+  · exact C15_sep_as_comma_nan cfg hl hf hc hk hcc A B t hnan
+  · exact C15_sep_as_comma cfg hl hf hc hcc A B t p hp hsep hs (by simpa using hnan)
+
+/-- … the same digit texts, values and ordinal flags, in the same order -/
+theorem C15_sep_as_comma_any_texts (cfg : ScanCfg) (hl : LangOk cfg.lang) (hf : cfg.lang.ErrFresh)
+    (hc : cfg.lang.Rejects [',']) (hk : HintsNan.Inert cfg.lang [',']) (hcc : CommaChar cfg.cc)
+    (A B : List Tok) (t p : Tok) (hp : prevSig cfg A = some p) (hsep : cfg.sep t p = true)
+    (hs : Scanner.isSkipped cfg t = false) :
+    ∃ occs occs', findNumbers cfg (A ++ t :: B) = .ok occs ∧
+      findNumbers cfg (A ++ commaTok :: t :: B) = .ok occs' ∧
+      occs'.map (fun o => (o.text, o.value, o.isOrdinal)) = occs.map (fun o => (o.text, o.value, o.isOrdinal)) := by
+  obtain ⟨occs, h1, h2⟩ := C15_sep_as_comma_any cfg hl hf hc hk hcc A B t p hp hsep hs
+  refine ⟨occs, _, h1, h2, ?_⟩
+  rw [List.map_map]
+  apply List.map_congr_left
+  intro o _
+  obtain ⟨a, b, c⟩ := shiftFrom_fields A.length o
+  simp only [Function.comp, a, b, c]
+
+/-! #### the same for the seven interpreters, without assumptions on the language -/
+
+theorem C15_sep_as_comma_nan_builtin (cfg : ScanCfg) (hb : cfg.lang ∈ allLangs) (hcc : CommaChar cfg.cc)
+    (A B : List Tok) (t : Tok) (hnan : t.nan = true) :
+    ∃ occs, findNumbers cfg (A ++ t :: B) = .ok occs ∧
+      findNumbers cfg (A ++ commaTok :: t :: B) = .ok (occs.map (shiftFrom A.length)) :=
+  C15_sep_as_comma_nan cfg (C15_builtin cfg.lang hb).1 (C15_builtin cfg.lang hb).2.1 (C15_builtin cfg.lang hb).2.2
+    (C15_stop_inert_builtin cfg.lang hb) hcc A B t hnan
+
+/-- `C15_sep_as_comma_builtin` without the hypothesis `t.nan = false` -/
+theorem C15_sep_as_comma_any_builtin (cfg : ScanCfg) (hb : cfg.lang ∈ allLangs) (hcc : CommaChar cfg.cc)
+    (A B : List Tok) (t p : Tok) (hp : prevSig cfg A = some p) (hsep : cfg.sep t p = true)
+    (hs : Scanner.isSkipped cfg t = false) :
+    ∃ occs, findNumbers cfg (A ++ t :: B) = .ok occs ∧
+      findNumbers cfg (A ++ commaTok :: t :: B) = .ok (occs.map (shiftFrom A.length)) :=
+  C15_sep_as_comma_any cfg (C15_builtin cfg.lang hb).1 (C15_builtin cfg.lang hb).2.1 (C15_builtin cfg.lang hb).2.2
+    (C15_stop_inert_builtin cfg.lang hb) hcc A B t p hp hsep hs
+
+/-! #### examples -/
+
+/-- a token hinted both "separated from its predecessor" (`tstart = 1`, `Hints.exSep`) and "not a number part" -/
+def wdSepNan (w : Word) : Tok := { text := w, lower := w, nan := true, tstart := 1 }
+
+set_option maxRecDepth 100000 in
+/-- French "quatre vingt ⟨un: separated, not a number part⟩ deux", threshold 0: "80" and "2" in both streams
+(the open number "quatre vingt" is ended by the hinted token itself in the first stream, by the comma
+token in the second) -/
+theorem C15_sep_as_comma_nan_example_fr :
+    spans (findNumbers (exCfg Fr.lang 0)
+      [wd w!"quatre", wd w!" ", wd w!"vingt", wd w!" ", wdSepNan w!"un", wd w!" ", wd w!"deux"]) =
+      some [(0, 3, w!"80"), (6, 7, w!"2")] ∧
+    spans (findNumbers (exCfg Fr.lang 0)
+      [wd w!"quatre", wd w!" ", wd w!"vingt", wd w!" ", commaTok, wdSepNan w!"un", wd w!" ", wd w!"deux"]) =
+      some [(0, 3, w!"80"), (7, 8, w!"2")] := by decide +kernel
+
+set_option maxRecDepth 100000 in
+/-- … German, the number is ended in decimal mode: "zwei komma fünf ⟨eins⟩ zwei" gives "2,5" and "2" in
+both streams -/
+theorem C15_sep_as_comma_nan_example_de :
+    spans (findNumbers (exCfg De.lang 0)
+      [wd w!"zwei", wd w!" ", wd w!"komma", wd w!" ", wd w!"fünf", wd w!" ", wdSepNan w!"eins", wd w!" ", wd w!"zwei"]) =
+      some [(0, 5, w!"2,5"), (8, 9, w!"2")] ∧
+    spans (findNumbers (exCfg De.lang 0)
+      [wd w!"zwei", wd w!" ", wd w!"komma", wd w!" ", wd w!"fünf", wd w!" ", commaTok, wdSepNan w!"eins", wd w!" ", wd w!"zwei"]) =
+      some [(0, 5, w!"2,5"), (9, 10, w!"2")] := by decide +kernel
+
+/-- … as an instance of `C15_sep_as_comma_any` (all hypotheses discharged) -/
+example : ∃ occs, findNumbers (exCfg Fr.lang 0)
+      ([wd w!"quatre", wd w!" ", wd w!"vingt", wd w!" "] ++ wdSepNan w!"un" :: [wd w!" ", wd w!"deux"]) = .ok occs ∧
+    findNumbers (exCfg Fr.lang 0)
+      ([wd w!"quatre", wd w!" ", wd w!"vingt", wd w!" "] ++ commaTok :: wdSepNan w!"un" :: [wd w!" ", wd w!"deux"]) =
+      .ok (occs.map (shiftFrom 4)) :=
+  C15_sep_as_comma_any (exCfg Fr.lang 0) C06.C06_langOk_fr C10.C10_fr_errFresh C10.C10_fr_rejects_comma
+    (C15_stop_inert_builtin Fr.lang (by simp [allLangs])) C15_commaChar_simple
+    [wd w!"quatre", wd w!" ", wd w!"vingt", wd w!" "] [wd w!" ", wd w!"deux"] (wdSepNan w!"un") (wd w!"vingt")
+    (by decide) rfl (by decide)
+
+/-- … and of `C15_sep_as_comma_nan_builtin` (Dutch; a token hinted "not a number part" only) -/
+example : ∃ occs, findNumbers (exCfg Nl.lang 10)
+      ([wd w!"twintig", wd w!" "] ++ wdNan w!"en" :: [wd w!" ", wd w!"een"]) = .ok occs ∧
+    findNumbers (exCfg Nl.lang 10)
+      ([wd w!"twintig", wd w!" "] ++ commaTok :: wdNan w!"en" :: [wd w!" ", wd w!"een"]) =
+      .ok (occs.map (shiftFrom 2)) :=
+  C15_sep_as_comma_nan_builtin (exCfg Nl.lang 10) (by simp [allLangs, exCfg]) C15_commaChar_simple
+    [wd w!"twintig", wd w!" "] [wd w!" ", wd w!"een"] (wdNan w!"en") rfl
 
 end T2N.C15
